@@ -175,19 +175,19 @@ def check(run):
     run.floor('C10-NOWRITE', sum(1 for o in run.obs if o.rule == 'C10-NOWRITE'), 30)
     run.floor('C10-KINDFWD', sum(1 for o in run.obs if o.rule == 'C10-KINDFWD'), 9)
 
-    whosets(run, p, rt)
-    flags(run, p)
-    rw(run, p, E, rt)
-    verbatim(run, p, rt)
+    run.attempt(whosets, run, p, rt)
+    run.attempt(flags, run, p)
+    run.attempt(rw, run, p, E, rt)
+    run.attempt(verbatim, run, p, rt)
     from .c04 import split
-    split(run, p, p.cls('FilesComparison'))
+    run.attempt(split, run, p, p.cls('FilesComparison'))
     run.rules['C10-SPLIT'] = run.rules.pop('C04-SPLIT') + ' (a reference regenerated from a string must split back into the lines the string splits into)'
     for o in run.obs:
         if o.rule == 'C04-SPLIT':
             o.rule = 'C10-SPLIT'
     run.floors = [(('C10-SPLIT' if r == 'C04-SPLIT' else r), c, m) for r, c, m in run.floors]
-    ief.run_ief(run, 'C10', methods, triage=triage.IEF)
-    run.floor('C10-IEF', run.units['ief_functions_checked'], 60)
+    run.attempt(ief.run_ief, run, 'C10', methods, triage=triage.IEF)
+    run.floor('C10-IEF', run.units.get('ief_functions_checked', 0), 60)
     run.assume('user callbacks (preprocess, condition, csv_read_fn, a custom writer/loader) are effect-free')
     run.trust('os/shutil/open/pandas write primitives are exactly those listed in sa/effects.py')
 
